@@ -608,6 +608,13 @@ fn corner_tables() -> Vec<(Vec<Space>, Vec<Def>)> {
     let abc = Tgt::Arr(vec![vec![0x61], vec![0x62], vec![0x63, 0x64]]);
     v.push((one(2), vec![rg(2, 0x0100, 0x0102, abc.clone()), ch(2, 0x0100, &[0x5A])]));
     v.push((one(2), vec![rg(2, 0x0100, 0x0102, abc.clone()), rg(2, 0x0103, 0x0105, abc.clone())]));
+    // arrays of single units: consecutive, consecutive end points only (interior permuted / arbitrary),
+    // descending, constant - an array target is indexed, it is not an incrementing range in disguise
+    let units = |xs: &[u16]| Tgt::Arr(xs.iter().map(|x| vec![*x]).collect());
+    v.push((one(2), vec![rg(2, 0x0010, 0x0013, units(&[0x48, 0x49, 0x4A, 0x4B]))]));
+    v.push((one(2), vec![rg(2, 0x0010, 0x0013, units(&[0x48, 0x65, 0x79, 0x4B]))]));
+    v.push((one(2), vec![rg(2, 0x0020, 0x0024, units(&[0x61, 0x63, 0x62, 0x64, 0x65])), rg(2, 0x0030, 0x0032, units(&[0x43, 0x42, 0x41]))]));
+    v.push((one(1), vec![rg(1, 0x40, 0x42, units(&[0x58, 0x58, 0x58])), rg(1, 0x50, 0x52, units(&[0x3041, 0x3042, 0x3041]))]));
     // one-unit targets: overlaps in every position, legitimately coalescing neighbours
     v.push((one(1), vec![rg(1, 0x20, 0x7E, s(&[0x20])), rg(1, 0x30, 0x39, s(&[0x660])), ch(1, 0x20, &[0xA0]),
                          rg(1, 0x7F, 0x8F, s(&[0x7F])), rg(1, 0x7E, 0x7E, s(&[0x203E]))]));
